@@ -4,7 +4,7 @@ From Coq Require Import ZArith Bool List String Permutation Sorted.
 From TV Require Import spec.Num spec.PyBase spec.PyLib model.GraphsIter.
 From TV Require Import gen.IRAst gen.Names gen.ExhaustAst gen.Exhaust gen.IterGraphs gen.GlueGen.
 From TV Require Import gen.AppendGen gen.GenerateIR.
-From TV Require proofs.Certs proofs.Certs3Defs.
+From TV Require proofs.Certs proofs.Certs3Defs model.Graphs proofs.GenGraphs_base proofs.GenGraphs_equiv.
 From TV Require Import proofs.GenGenIR_equiv.
 Import ListNotations.
 
@@ -114,10 +114,32 @@ Proof. exact sub_align0. Qed.
 Print Assumptions TIE_genir_sub_align0.
 
 (** (b) input_safe_cert is NOT proved.  Its unrestricted form is false: a graph carrying an output layer of an input tensor
-    (never produced by to_iteration_graphs) yields a kernel that fails the certificate.  The statement to prove is
-    [gen_input_safe_full] (hypothesis [graph_outputs_of d g = true]: every output layer belongs to definition.output_variable). *)
+    (never produced by to_iteration_graphs) yields a kernel that fails the certificate.  The statement that remains is
+    [gen_input_safe_full] (three hypotheses, each shown necessary by a witness). *)
 Theorem TIE_genir_input_safe_unrestricted_fails :
   exists f, generate_ir None ex_d ex_g_foreign GlueGen.KernelType_evaluate = Some f
             /\ proofs.Certs2Input.input_safe_cert f = false /\ graph_outputs_of ex_d ex_g_foreign = false.
 Proof. exact gen_input_safe_unrestricted_fails. Qed.
 Print Assumptions TIE_genir_input_safe_unrestricted_fails.
+
+Theorem TIE_genir_input_safe_needs_output_first :
+  exists f, generate_ir None ex_d_out_second ex_g GlueGen.KernelType_evaluate = Some f
+            /\ proofs.Certs2Input.input_safe_cert f = false /\ graph_outputs_of ex_d_out_second ex_g = true /\ output_first ex_d_out_second = false.
+Proof. exact gen_input_safe_needs_output_first. Qed.
+Print Assumptions TIE_genir_input_safe_needs_output_first.
+
+Theorem TIE_genir_input_safe_needs_distinct_names :
+  exists f, generate_ir None ex_d3 ex_g3 GlueGen.KernelType_evaluate = Some f
+            /\ proofs.Certs2Input.input_safe_cert f = false /\ graph_outputs_of ex_d3 ex_g3 = true /\ output_first ex_d3 = true.
+Proof. exact gen_input_safe_needs_distinct_names. Qed.
+Print Assumptions TIE_genir_input_safe_needs_distinct_names.
+
+(** (2) the first hypothesis is DISCHARGED for the graphs the library produces: every graph of today's enumeration
+    (to_iteration_graphs_src, proved to be what the regenerated to_iteration_graphs yields: TIE graphs) carries output layers of
+    the identified target tensor only -- which is definition.output_variable (TIE glue: gen_to_identifiable_identify) *)
+Theorem TIE_genir_library_graphs_outputs : forall fval a fs gs tr,
+  proofs.GenGraphs_equiv.to_iteration_graphs_src a fs = model.Graphs.ROk gs ->
+  model.Graphs.identify (model.Graphs.a_target a) fs = Some tr ->
+  Forall (fun g => graph_outputs_of_t (proofs.GenGraphs_base.up_tref tr) (proofs.GenGraphs_base.up_graph fval g) = true) gs.
+Proof. exact gen_library_graphs_outputs. Qed.
+Print Assumptions TIE_genir_library_graphs_outputs.
